@@ -136,6 +136,22 @@ class C14(Prop):
                 if derived.duration != want(s, e):
                     acc.violation("wrong-duration-in-derived-schedule", f"dataclasses.replace(..., start_time={ss}, end_time={hhmm(e)}).duration = {derived.duration!r}, want {want(s, e)}",
                                   {"start": ss, "end": hhmm(e), "got": derived.duration})
+        # slots listed back to back: each pair starts where the previous one ended (wrapping over midnight or not, at random)
+        cur = s
+        for _ in range(40):
+            nxt = r.randrange(1440) if r.random() < 0.7 else (cur - r.randrange(1, 120)) % 1440
+            acc.ev()
+            acc.count("chained_pairs")
+            try:
+                got = calc(hhmm(cur), hhmm(nxt))
+            except Exception as exc:
+                acc.violation("raised:chained", f"calc_duration({hhmm(cur)},{hhmm(nxt)}) right after a pair ending at {hhmm(cur)} raised {type(exc).__name__}: {exc}", {})
+                cur = nxt
+                continue
+            if got != want(cur, nxt):
+                acc.violation("wrong-duration:after-a-pair-ending-where-this-one-starts", f"calc_duration({hhmm(cur)},{hhmm(nxt)}) = {got!r}, want {want(cur, nxt)}, "
+                              f"right after a pair that ended at {hhmm(cur)}", {"start": hhmm(cur), "end": hhmm(nxt), "got": got})
+            cur = nxt
         # the two documented parameters given by name, in either order, and through functools.partial
         import functools
 
